@@ -27,8 +27,8 @@ impl Property for C04 {
 
     fn strategy(_tier: Tier) -> BoxedStrategy<Case> {
         let seq = (strat::ring_cfg(3), proptest::collection::vec(strat::step(strat::kind_basic().boxed(), 1, 1), 0..80)).prop_map(|(cfg, steps)| Case::Seq(History { cfg, steps, teardown: None }));
-        let sched = (0u8..=2, 1u8..=2, proptest::collection::vec(1u8..=3, 2..=4), 0u8..4, proptest::bool::weighted(0.3), proptest::bool::weighted(0.25), proptest::collection::vec(any::<u16>(), 0..120))
-            .prop_map(|(sq_log2, gap, submitters, polls, sqpoll, drop_ring, tape)| Case::Sched(SchedCase { sq_log2, gap, submitters, polls, sqpoll, drop_ring, tape }));
+        let sched = (0u8..=2, 1u8..=2, proptest::collection::vec(1u8..=3, 2..=4), 0u8..4, proptest::bool::weighted(0.3), proptest::bool::weighted(0.25), proptest::collection::vec(any::<u16>(), 0..120), strat::maybe_pct(3, 120), proptest::bool::weighted(0.3))
+            .prop_map(|(sq_log2, gap, submitters, polls, sqpoll, drop_ring, tape, pct, single_issuer)| Case::Sched(SchedCase { sq_log2, gap, submitters, polls, sqpoll, drop_ring, tape, pct, single_issuer }));
         prop_oneof![3 => seq, 2 => sched].boxed()
     }
 
